@@ -202,8 +202,8 @@ func (p *Peer) handle(c *Conn, raw []byte) {
 				if gen != p.kaGen || p.conn != c {
 					return
 				}
-				c.deliver(EncodeOpen(p.openSpec()))
-				c.deliver(EncodeKeepalive())
+				p.enqueue(c, EncodeOpen(p.openSpec()), 0)
+				p.enqueue(c, EncodeKeepalive(), 0)
 				p.state = psOpenConfirm
 			})
 		}
@@ -237,7 +237,7 @@ func (p *Peer) startKeepalives(c *Conn) {
 		if gen != p.kaGen || p.conn != c || p.Silent {
 			return
 		}
-		c.deliver(EncodeKeepalive())
+		p.enqueue(c, EncodeKeepalive(), 0)
 		p.env.Sim.After(iv, 60, "", tick)
 	}
 	p.env.Sim.After(iv, 60, "", tick)
@@ -267,15 +267,36 @@ func (p *Peer) applyUpdate(c *Conn, u *Update, raw []byte) {
 // Established reports whether the peer considers the session established.
 func (p *Peer) Established() bool { return p.state == psEstablished }
 
-// Send delivers raw bytes to the DUT, optionally in chunks with gaps.
+// enqueue delivers bytes to the DUT not before now+delay and never before bytes queued
+// earlier on the same connection (TCP keeps the order of one stream).
+func (p *Peer) enqueue(c *Conn, b []byte, delay time.Duration) {
+	now := p.env.Sim.Now()
+	at := now
+	if at < c.lastPeerTx {
+		at = c.lastPeerTx
+	}
+	at += delay
+	c.lastPeerTx = at
+	if at == now && c.pendingPeerTx == 0 {
+		c.deliver(b)
+		return
+	}
+	c.pendingPeerTx++
+	p.env.Sim.At(at, 40, "", func() {
+		c.pendingPeerTx--
+		c.deliver(b)
+	})
+}
+
+// Send delivers raw bytes to the DUT.
 func (p *Peer) Send(b []byte) {
 	if p.conn == nil {
 		return
 	}
-	p.conn.deliver(b)
+	p.enqueue(p.conn, b, 0)
 }
 
-// SendChunked delivers b in pieces of the given sizes, gap apart.
+// SendChunked delivers b in pieces of the given sizes, gap apart (fragmentation fault).
 func (p *Peer) SendChunked(b []byte, sizes []int, gap time.Duration) {
 	c := p.conn
 	if c == nil {
@@ -283,23 +304,20 @@ func (p *Peer) SendChunked(b []byte, sizes []int, gap time.Duration) {
 	}
 	off := 0
 	i := 0
-	at := time.Duration(0)
 	for off < len(b) {
 		n := len(b) - off
 		if i < len(sizes) && sizes[i] > 0 && sizes[i] < n {
 			n = sizes[i]
 		}
 		piece := b[off : off+n]
-		if at == 0 {
-			c.deliver(piece)
-		} else {
-			pc := piece
-			p.env.Sim.After(at, 40, "", func() { c.deliver(pc) })
+		d := gap
+		if i == 0 {
+			d = 0
 		}
+		p.enqueue(c, piece, d)
 		p.env.fault("fragment")
 		off += n
 		i++
-		at += gap
 	}
 }
 
